@@ -314,6 +314,57 @@ Section Compose.
 End Compose.
 
 (* ------------------------------------------------------------------ *)
+(* (1) in the compact form stated in props/Properties_C05.v *)
+
+Lemma mapping_commutes (pubkey sigt : Type) (env_encode : envelope pubkey sigt -> bytes)
+      (env_decode : bytes -> option (envelope pubkey sigt)) :
+  (* C05 -> C13, field by field *)
+  (forall a : A.ad pubkey sigt,
+     S.a_prev (to_c13 env_encode a) = A.a_prev a /\ S.a_provider (to_c13 env_encode a) = A.a_provider a /\
+     S.a_addrs (to_c13 env_encode a) = A.a_addrs a /\ S.a_ctx (to_c13 env_encode a) = A.a_ctx a /\
+     S.a_meta (to_c13 env_encode a) = A.a_md a /\ S.a_isrm (to_c13 env_encode a) = A.a_rm a /\
+     (forall ent, A.a_entries a = Some ent -> S.a_entries (to_c13 env_encode a) = ent) /\
+     S.a_sig (to_c13 env_encode a) = wire_bytes env_encode (A.a_sig a) /\
+     S.a_ext (to_c13 env_encode a) = option_map (ext_to_c13 env_encode) (A.a_ext a)) /\
+  (forall x : A.ext pubkey sigt,
+     S.x_provs (ext_to_c13 env_encode x) = map (prov_to_c13 env_encode) (A.x_providers x) /\
+     S.x_override (ext_to_c13 env_encode x) = A.x_override x) /\
+  (forall p : A.provider pubkey sigt,
+     S.p_id (prov_to_c13 env_encode p) = A.p_id p /\ S.p_addrs (prov_to_c13 env_encode p) = A.p_addrs p /\
+     S.p_meta (prov_to_c13 env_encode p) = A.p_md p /\ S.p_sig (prov_to_c13 env_encode p) = wire_bytes env_encode (A.p_sig p)) /\
+  (* C13 -> C05: the same fields, signature bytes parsed *)
+  (forall c : S.ad,
+     A.a_prev (of_c13 env_decode c) = S.a_prev c /\ A.a_provider (of_c13 env_decode c) = S.a_provider c /\
+     A.a_addrs (of_c13 env_decode c) = S.a_addrs c /\ A.a_ctx (of_c13 env_decode c) = S.a_ctx c /\
+     A.a_md (of_c13 env_decode c) = S.a_meta c /\ A.a_rm (of_c13 env_decode c) = S.a_isrm c /\
+     A.a_entries (of_c13 env_decode c) = Some (S.a_entries c) /\
+     A.a_sig (of_c13 env_decode c) = env_decode (S.a_sig c) /\
+     A.a_ext (of_c13 env_decode c) = option_map (ext_of_c13 env_decode) (S.a_ext c)) /\
+  (forall x : S.extprov,
+     A.x_providers (ext_of_c13 env_decode x) = map (prov_of_c13 env_decode) (S.x_provs x) /\
+     A.x_override (ext_of_c13 env_decode x) = S.x_override x) /\
+  (forall p : S.provider,
+     A.p_id (prov_of_c13 env_decode p) = S.p_id p /\ A.p_addrs (prov_of_c13 env_decode p) = S.p_addrs p /\
+     A.p_md (prov_of_c13 env_decode p) = S.p_meta p /\ A.p_sig (prov_of_c13 env_decode p) = env_decode (S.p_sig p)) /\
+  (* parsing the signatures of the C13 image gives the C05 value back; the image determines it *)
+  (env_round_trip env_encode env_decode -> env_empty env_decode ->
+   (forall a : A.ad pubkey sigt, A.a_entries a <> None -> of_c13 env_decode (to_c13 env_encode a) = a) /\
+   (forall a b : A.ad pubkey sigt, A.a_entries a <> None -> A.a_entries b <> None ->
+      to_c13 env_encode a = to_c13 env_encode b -> a = b)).
+Proof.
+  split; [|split; [|split; [|split; [|split; [|split]]]]].
+  - intro a. repeat split; try reflexivity. intros ent E. cbn. rewrite E. reflexivity.
+  - intro x. split; reflexivity.
+  - intro p. repeat split; reflexivity.
+  - intro c. repeat split; reflexivity.
+  - intro x. split; reflexivity.
+  - intro p. repeat split; reflexivity.
+  - intros RT EE. split.
+    + intros a En. apply of_to_c13; assumption.
+    + intros a b Ea Eb E. eapply to_c13_injective; eauto.
+Qed.
+
+(* ------------------------------------------------------------------ *)
 (* the premises of the composed theorems can be met together *)
 
 Module WitnessC.
